@@ -2,7 +2,7 @@ SPEC = dict(
     id="C14",
     bin="c14",
     cases_quick=800,
-    cases_thorough=40000,
+    cases_thorough=20000,
     level="proof",
     technique="Coq theorems over a Gallina model of pending_position_impact_pool_distribution_amount and DistributePositionImpact::execute (all widths, all pools/minimums/rates/times, histories by induction) + differential correspondence with the real action run over vmarket::TestMarket (u64/9 and u128/20) + oracle re-evaluating the property on the Rust reports and pool read-backs",
     text="For every pool amount, minimum, rate and elapsed time the distributed amount is proved to be min(floor(elapsed*rate/UNIT), max(0, pool-min)); a distribution never increases the pool, never takes it below the minimum when it started above it and leaves it untouched at or below the minimum; by induction the same holds over any history of repeated distributions. The only failures are an overflow of elapsed*rate/UNIT (proved unreachable for u128/20 with u64 seconds) and an amount >= 2^(w-1); both leave the pool unchanged.",
